@@ -429,6 +429,12 @@ def run(R: Recorder, tier: str, seed: int, shard: int, nshards: int) -> None:
     if shard == 0:
         detached(R)
         late_callbacks(R)
+        from hv.props import c11
+
+        for case in c11.mid_step_cases():
+            if case["spawns"]:
+                # a task spawned by a stream source lives in the stream's scope: the scope is left when the consumer's step is cancelled
+                c11.run_consumer_cancelled_mid_step(R, case, spawned_monitor="children-done-at-exit")
         factories(R)
         argnames.check_ctx_entry_points(R, "spawn-factory", "spawn")
         argnames.check_injecting_ctx(R, "spawn-factory", "spawn")
@@ -445,6 +451,11 @@ def replay(R: Recorder, rec: dict[str, Any]) -> None:
         return
     if "late_callback" in rec:
         late_callbacks(R)
+        return
+    if rec.get("mid_step"):
+        from hv.props import c11
+
+        c11.run_consumer_cancelled_mid_step(R, rec, spawned_monitor="children-done-at-exit")
         return
     if "factory" in rec:
         factories(R)
